@@ -296,3 +296,40 @@ package authz
 //@   ensures  ok_after_logout: RespCode(resp) == 0 ==> !LoggedOut[StoreFor(o.sessions, o.config).pay][Presented]
 //@   ensures  no_resurrection: req.GetAttributes().GetRequest().GetHttp() != nil && !IsCallbackReq(o.config, req.GetAttributes().GetRequest().GetHttp()) ==> LogoutsFinal(View, LoggedOut, StoreFor(o.sessions, o.config).pay)
 //@   ensures  callback_others: forall x string :: x != Presented && LoggedOut[StoreFor(o.sessions, o.config).pay][x] ==> !View[StoreFor(o.sessions, o.config).pay][x].present
+
+// ---------------------------------------------------------------------------------------------
+// C03 (contract variant live): progress in a fault-free run against a compliant provider. The
+// store never reports an error (live variants of the SessionStore contracts); what the provider
+// answers is fixed by the hypotheses of each step.
+// ---------------------------------------------------------------------------------------------
+
+//@ func (*oidcHandler).redirectToIDP
+//@   variant live
+//@   requires wf: HandlerOK(o) && log != nil && resp != nil
+//@   requires inv: StoreInv(View, Issued)
+//@   requires presented: oldSessionID == "" || oldSessionID == Presented
+//@   modifies resp.HttpResponse, resp.Status, ghost View, ghost Issued, ghost LastSid, ghost NGen, ghost Clk, ghost NDraw
+//@   ensures  denied: IsDenied(resp) && RespCode(resp) == 16 && DeniedOf(resp) != nil
+//@   ensures  inv: StoreInv(View, Issued)
+//@   ensures  live: !IsSessionError(resp) && NGen == old(NGen) + 1
+//@   ensures  redirect: RedirectShape(DeniedOf(resp), 4) && HdrIs(DeniedOf(resp).Headers[3], "set-cookie", CookieSpec(CookieNameOf(o.config), LastSid, 0 - 1))
+//@   ensures  location: AuthLocation(HdrVal(DeniedOf(resp).Headers[2]), o.config, View[StoreFor(o.sessions, o.config).pay][LastSid].auth.state, View[StoreFor(o.sessions, o.config).pay][LastSid].auth.nonce, S256(View[StoreFor(o.sessions, o.config).pay][LastSid].auth.verifier))
+//@   ensures  login_state: HoldsAuth(View[StoreFor(o.sessions, o.config).pay][LastSid]) && !HoldsTok(View[StoreFor(o.sessions, o.config).pay][LastSid]) && View[StoreFor(o.sessions, o.config).pay][LastSid].auth.url == RequestedURL(httpRequest)
+//@   ensures  deny_content: LoginRedirect(DeniedOf(resp), o.config, View[StoreFor(o.sessions, o.config).pay][LastSid].auth, LastSid)
+
+//@ func (*oidcHandler).Process
+//@   variant live
+//@   requires wf: HandlerOK(o) && o.httpClient != nil && resp != nil && UrlParses(o.config.GetCallbackUri())
+//@   requires inv: StoreInv(View, Issued)
+//@   requires presented: Presented == SidOf(req.GetAttributes().GetRequest().GetHttp().GetHeaders(), o.config)
+//@   modifies resp.HttpResponse, resp.Status, resp.GetOkResponse().Headers, ghost View, ghost IdP, ghost Clk, ghost Issued, ghost LastSid, ghost NGen, ghost NDraw
+//@   ensures  served: req.GetAttributes().GetRequest().GetHttp() != nil && !IsLogoutReq(o.config, req.GetAttributes().GetRequest().GetHttp()) && !IsCallbackReq(o.config, req.GetAttributes().GetRequest().GetHttp()) && Presented != "" && HoldsTok(old(View)[StoreFor(o.sessions, o.config).pay][Presented]) && JwtParses(old(View)[StoreFor(o.sessions, o.config).pay][Presented].tok.id) && !TokensExpired(o.config, old(View)[StoreFor(o.sessions, o.config).pay][Presented].tok, ROpEnd) && InsideLimits(old(View)[StoreFor(o.sessions, o.config).pay][Presented], ROpEnd, StoreAbs(StoreFor(o.sessions, o.config)), StoreIdle(StoreFor(o.sessions, o.config))) ==> RespCode(resp) == 0 && IdP == old(IdP) && IsOk(resp)
+//@   ensures  served_tokens: RespCode(resp) == 0 && IdP == old(IdP) ==> forall i int :: len(old(resp.GetOkResponse().GetHeaders())) <= i && i < len(OkOf(resp).Headers) ==> FwdHdrTok(OkOf(resp).Headers[i], o.config, old(View)[StoreFor(o.sessions, o.config).pay][Presented].tok)
+//@   ensures  login: req.GetAttributes().GetRequest().GetHttp() != nil && !IsLogoutReq(o.config, req.GetAttributes().GetRequest().GetHttp()) && !IsCallbackReq(o.config, req.GetAttributes().GetRequest().GetHttp()) && (Presented == "" || !HoldsTok(old(View)[StoreFor(o.sessions, o.config).pay][Presented])) ==> RespCode(resp) == 16 && NGen == old(NGen) + 1 && LoginRedirect(DeniedOf(resp), o.config, View[StoreFor(o.sessions, o.config).pay][LastSid].auth, LastSid) && HoldsAuth(View[StoreFor(o.sessions, o.config).pay][LastSid]) && View[StoreFor(o.sessions, o.config).pay][LastSid].auth.url == RequestedURL(req.GetAttributes().GetRequest().GetHttp()) && IdP == old(IdP)
+
+//@ func (*oidcHandler).areRequiredTokensExpired
+//@   variant live
+//@   requires wf: HandlerOK(o) && log != nil && tokens != nil
+//@   modifies ghost Clk
+//@   ensures  parses: (err == nil) == JwtParses(tokens.IDToken)
+//@   ensures  expired: err == nil ==> result == TokensExpired(o.config, TokOf(tokens), Clk) && Clk >= old(Clk) && Clk <= ROpEnd
